@@ -80,7 +80,7 @@ __CPROVER_requires(key_file == NULL || (key_file == g.obj && g.free_calls == 0))
 __CPROVER_assigns(g.free_calls, g.freed)
 __CPROVER_ensures(__CPROVER_return_value == NULL)
 __CPROVER_ensures(key_file != NULL ==> (g.free_calls == 1 && g.freed == key_file))
-__CPROVER_ensures(key_file == NULL ==> (g.free_calls == __CPROVER_old(g.free_calls)))
+__CPROVER_ensures(key_file == NULL ==> (g.free_calls == __CPROVER_old(g.free_calls) && g.freed == __CPROVER_old(g.freed)))
 ;
 
 /* --- the function under contract ---------------------------------------- */
@@ -97,6 +97,9 @@ read_file_with_callback(econf_file **key_file, const char *file_name,
 __CPROVER_requires(key_file == NULL || (*key_file == g.obj && g.obj != NULL))
 __CPROVER_requires(file_name == g.name && callback_data == g.cb_data)
 __CPROVER_requires(g.cb_given == (callback != NULL))
+__CPROVER_requires(delim == g.delim_arg && comment == g.comment_arg)
+/* the call log is empty on entry (the counts in the postconditions are absolute) */
+__CPROVER_requires(g.lstat_calls == 0 && g.cb_calls == 0 && g.rf_calls == 0 && g.abs_calls == 0 && g.free_calls == 0)
 __CPROVER_assigns(key_file != NULL: *key_file, (*key_file)->comment)
 __CPROVER_assigns(g)
 /* C13/C20: a documented code; on any failure the caller's pointer is either
@@ -137,6 +140,15 @@ __CPROVER_ensures((ARGS_OK && g.rf_calls == 1 && g.rf_ret == ECONF_SUCCESS) ==>
 __CPROVER_ensures(!ARGS_OK ==> (g.rf_calls == 0 && g.cb_calls == 0))
 __CPROVER_ensures(g.rf_calls == 0 ==> (g.free_calls == 0 && (key_file == NULL || *key_file == g.obj)))
 __CPROVER_ensures((__CPROVER_return_value == ECONF_SUCCESS) == (g.rf_calls == 1 && g.rf_ret == ECONF_SUCCESS))
+/* what identifies the call is not touched (needed where this contract REPLACES the function: jobs entry.*) */
+__CPROVER_ensures(g.obj == __CPROVER_old(g.obj) && g.name == __CPROVER_old(g.name) &&
+                  g.cb_data == __CPROVER_old(g.cb_data) && g.cb_given == __CPROVER_old(g.cb_given) &&
+                  g.delim_arg == __CPROVER_old(g.delim_arg) && g.comment_arg == __CPROVER_old(g.comment_arg))
+/* C06/C16 in one line for the callers: the parser ran only for a file that passed every rule in
+ * force and that the callback accepted */
+__CPROVER_ensures((g.rf_calls == 0 || g.rf_calls == 1) && (g.rf_calls == 1 ==> (GATE_RULES_OK && CB_ACCEPTED)))
+__CPROVER_ensures((g.cb_calls == 0 || g.cb_calls == 1) && (g.free_calls == 0 || g.free_calls == 1) &&
+                  g.lstat_calls >= 0 && g.lstat_calls <= 2)
 /* C07: the object remembers the first comment character it was read with ('#' when none was given) */
 __CPROVER_ensures((ARGS_OK && g.rf_calls == 1 && g.rf_ret == ECONF_SUCCESS) ==>
                   (*key_file)->comment == (comment[0] ? comment[0] : '#'))
